@@ -42,7 +42,7 @@ Theorem T20_flag_direction : forall rl wl,
   lim_of Tx (new_listener rl wl) = (if 0 <? rl then Some (new_limiter rl) else None) /\
   lim_of Rx (new_listener rl wl) = (if 0 <? wl then Some (new_limiter wl) else None).
 Proof. exact (mapping ob_conn_read_charges_rx ob_conn_write_charges_tx ob_read_limit_feeds_tx
-                      ob_write_limit_feeds_rx ob_limit_guard_positive). Qed.
+                      ob_write_limit_feeds_rx ob_limit_guard_positive ob_listener_fields_straight). Qed.
 Print Assumptions T20_flag_direction.
 
 (* In any interleaving of calls of both directions, the return times of one direction's calls
@@ -62,7 +62,7 @@ Theorem T20_zero_is_unlimited : forall rl wl,
 Proof.
   exact (fun rl wl =>
     match zero_unlimited ob_conn_read_charges_rx ob_conn_write_charges_tx ob_read_limit_feeds_tx
-                         ob_write_limit_feeds_rx ob_limit_guard_positive rl wl with
+                         ob_write_limit_feeds_rx ob_limit_guard_positive ob_listener_fields_straight rl wl with
     | conj a (conj c d) =>
         conj a (conj c (conj d (unlimited_never_waits ob_conn_read_charges_rx ob_conn_write_charges_tx)))
     end).
